@@ -76,6 +76,39 @@ def keygen_pred(ikm, info):
     return (ok, f"KeyGen differs from the draft-v4 procedure / range at |ikm|={len(ikm)} |info|={len(info)}: got {sk}, want {want}")
 
 
+def mutable_args_pred(ikm, info):
+    """the same procedure for bytes-like arguments that happen to be mutable (bytearray): equal results on repeated calls on the same
+    objects, equal to the draft value, arguments left as they were"""
+    from py_ecc.bls import G2Basic
+    from py_ecc.bls import hash as Hm
+    bad = []
+    a, b = bytearray(ikm), bytearray(info)
+    want = O.bls_keygen_v4(bytes(ikm), bytes(info))
+    for k in range(3):
+        try:
+            got = G2Basic.KeyGen(a, b)
+        except Exception as e:  # noqa: BLE001
+            bad.append(f"KeyGen call {k + 1} raised {type(e).__name__}")
+            break
+        if got != want:
+            bad.append(f"KeyGen call {k + 1} on the same bytearray objects: got {got}, want {want}")
+        if bytes(a) != bytes(ikm) or bytes(b) != bytes(info):
+            bad.append(f"KeyGen changed its argument (|IKM| {len(ikm)} -> {len(a)}, |key_info| {len(info)} -> {len(b)})")
+            break
+    s, i2, n2 = bytearray(info), bytearray(ikm), bytearray(info)
+    for k in range(2):
+        prk = Hm.hkdf_extract(s, i2)
+        if prk != O.rfc_hkdf_extract(bytes(info), bytes(ikm)):
+            bad.append(f"hkdf_extract call {k + 1} with bytearray arguments")
+        pk = bytearray(prk)
+        if Hm.hkdf_expand(pk, n2, 48) != O.rfc_hkdf_expand(prk, bytes(info), 48):
+            bad.append(f"hkdf_expand call {k + 1} with bytearray arguments")
+        if bytes(s) != bytes(info) or bytes(i2) != bytes(ikm) or bytes(n2) != bytes(info) or bytes(pk) != prk:
+            bad.append("an HKDF function changed its argument")
+            break
+    return (not bad, f"mutable bytes-like arguments: {bad[:3]}")
+
+
 def ceil32_pred():
     import math
     bad = [n for n in range(0, 20000) if math.ceil(n / 32) != -(-n // 32)]
@@ -93,6 +126,8 @@ def predicates(rng, tier, only=None):
     for ikm in (b"\x00", bytes(32), rb(rng, 31) + b"\x00", b"\x00" + rb(rng, 31), rb(rng, 30) + b"\x00\x00"):
         ps.append(Pred("keygen-draft", keygen_pred, (ikm, b"")))
         ps.append(Pred("keygen-draft", keygen_pred, (ikm, b"\x00\x30\x00")))
+    for ikm, info in ((rb(rng, 32), b""), (rb(rng, 32), rb(rng, 5)), (rb(rng, rng.randrange(32, 65)), rb(rng, rng.randrange(0, 33)))):
+        ps.append(Pred("mutable-args", mutable_args_pred, (ikm, info)))
     if only:
         ps = [p for p in ps if p.name == only]
     return ps
